@@ -16,6 +16,34 @@ CLAIMS = {
             "Key injectivity (equal keys => equal operator, operands, output type, output mode) is proved for every pair of paths of the real _make_key/_value_key; whole-pass behaviour is checked on an enumerated scope (bounded).",
             "Trusted: f-strings modelled as tuples, S1/S2/S3, composition lemma, 'any spanning tree induces the same partition'.",
             "DESIGN §4 C10"),
+    "C02": ("other", "pair lemma on the real CSE key (pyvc) + bounded end-to-end validation of the real pipeline's blueprint (S2 circuit model) against the S3 source semantics by SMT over all int32 inputs, on an enumerated scope of programs (every signal on each bundle anchor compared)",
+            "Contract-based P obligations where listed are discharged for all inputs; the program-shape quantifier is covered by a bounded stand-in (enumerated scope, labelled bounded, never counted as proved).",
+            "Trusted: S1/S2/S3 specs, pyvc encoding, composition lemma (DESIGN §3.3); known findings are reported as KNOWN-FINDING lines.",
+            'DESIGN §4 C02'),
+    "C06": ("other", "bounded end-to-end validation of the real pipeline's blueprint (S2 circuit model) against the S3 source semantics by SMT over all int32 inputs, on an enumerated scope of programs (entity circuit conditions vs enable > 0, chest contents as free inputs)",
+            "Contract-based P obligations where listed are discharged for all inputs; the program-shape quantifier is covered by a bounded stand-in (enumerated scope, labelled bounded, never counted as proved).",
+            "Trusted: S1/S2/S3 specs, pyvc encoding, composition lemma (DESIGN §3.3); known findings are reported as KNOWN-FINDING lines.",
+            'DESIGN §4 C06'),
+    "C09": ("other", "pyvc VCs on coordinate constant extraction + bounded end-to-end validation of the real pipeline's blueprint (S2 circuit model) against the S3 source semantics by SMT over all int32 inputs, on an enumerated scope of programs (multiset of user entities by prototype and top-left tile)",
+            "Contract-based P obligations where listed are discharged for all inputs; the program-shape quantifier is covered by a bounded stand-in (enumerated scope, labelled bounded, never counted as proved).",
+            "Trusted: S1/S2/S3 specs, pyvc encoding, composition lemma (DESIGN §3.3); known findings are reported as KNOWN-FINDING lines.",
+            'DESIGN §4 C09'),
+    "C12": ("other", "bounded end-to-end validation of the real pipeline's blueprint (S2 circuit model) against the S3 source semantics by SMT over all int32 inputs, on an enumerated scope of programs over all order-preserving interleavings of pairs of independent computations",
+            "Contract-based P obligations where listed are discharged for all inputs; the program-shape quantifier is covered by a bounded stand-in (enumerated scope, labelled bounded, never counted as proved).",
+            "Trusted: S1/S2/S3 specs, pyvc encoding, composition lemma (DESIGN §3.3); known findings are reported as KNOWN-FINDING lines.",
+            'DESIGN §4 C12'),
+    "C13": ("other", "bounded end-to-end validation of the real pipeline's blueprint (S2 circuit model) against the S3 source semantics by SMT over all int32 inputs, on an enumerated scope of programs plus freshness of every compiler-chosen signal against explicit / wildcard / reserved names",
+            "Contract-based P obligations where listed are discharged for all inputs; the program-shape quantifier is covered by a bounded stand-in (enumerated scope, labelled bounded, never counted as proved).",
+            "Trusted: S1/S2/S3 specs, pyvc encoding, composition lemma (DESIGN §3.3); known findings are reported as KNOWN-FINDING lines.",
+            'DESIGN §4 C13'),
+    "C15": ("other", "pyvc VCs on constant resolution + bounded end-to-end validation of the real pipeline's blueprint (S2 circuit model) against the S3 source semantics by SMT over all int32 inputs, on an enumerated scope of programs with S3's substitution semantics for calls",
+            "Contract-based P obligations where listed are discharged for all inputs; the program-shape quantifier is covered by a bounded stand-in (enumerated scope, labelled bounded, never counted as proved).",
+            "Trusted: S1/S2/S3 specs, pyvc encoding, composition lemma (DESIGN §3.3); known findings are reported as KNOWN-FINDING lines.",
+            'DESIGN §4 C15'),
+    "C20": ("other", "bounded end-to-end validation of the real pipeline's blueprint (S2 circuit model) against the S3 source semantics by SMT over all int32 inputs, on an enumerated scope of programs (every S3 output name must have its anchor / labelled constant carrying exactly its value)",
+            "Contract-based P obligations where listed are discharged for all inputs; the program-shape quantifier is covered by a bounded stand-in (enumerated scope, labelled bounded, never counted as proved).",
+            "Trusted: S1/S2/S3 specs, pyvc encoding, composition lemma (DESIGN §3.3); known findings are reported as KNOWN-FINDING lines.",
+            'DESIGN §4 C20'),
     "C16": ("other", "contract-based deductive verification (pyvc VCs with inductive loop invariants + variants on the real ForStmt.get_iteration_values) plus bounded stand-ins for the lowering plumbing",
             "The iteration sequence is proved for all (start, stop, step) and list iterators; the per-iteration scoping in the analyzer/lowerer is checked by bounded stand-ins, labelled as such.",
             "Trusted: pyvc encoding, composition lemma, 'IR equal up to fresh ids => same circuit'.",
